@@ -591,6 +591,14 @@ class History:
         if cfg["transport"] == "tcp":
             self.addr = ("127.0.0.1", self.srv.port)
         self.srv.clients = WatchSet(self.srv.clients)
+        # how many accepted sockets the accept loop has handed to _accept_method (instance-side wrapper, nothing of the source changes)
+        self.handed = []
+        _orig_accept_method = self.srv._accept_method
+
+        def _counted_accept_method(sock, _o=_orig_accept_method):
+            self.handed.append(1)
+            return _o(sock)
+        self.srv._accept_method = _counted_accept_method
         self.thread = self.srv._start_in_thread()
         self.ref_inst = {}      # instance tag -> {"cnt":, "made":}
 
@@ -1441,6 +1449,17 @@ class History:
         self.replies.append(["knock"])
         time.sleep(0.05)
         self.settle(idx)
+        if self.cfg["kind"] == "oneshot" and not self.tainted and self.job.get("probe") != "c16":
+            # (the kernel may drop a reset connection before accept() sees it: then nothing was handed out and the server still waits)
+            wait_until(lambda: bool(self.handed), 1.0)
+            if self.handed:
+                def down():
+                    return self.srv._closed and not self.srv.active and self.srv.listener.fileno() == -1 and not self.thread.is_alive()
+                if not self.eventually(down, gc_retry=False):
+                    self.violation("oneshot-not-closed-after-its-client-left", idx, observed=[self.srv._closed, self.srv.active, self.thread.is_alive(), len(self.handed)],
+                                   expected=[True, False, False], what="a one-shot server went on accepting after the one connection it was handed had ended "
+                                                                       "(a client that reset before it was set up IS the one shot)")
+                    self.tainted = True
 
     def do_classref(self, idx, cid):
         """the client shows the server a CLASS of its own (a remote reference whose id pack names a class): the server must ask THIS client
@@ -2169,6 +2188,23 @@ def run_forking_job(job):
                 if c is not None:
                     c.close()
                 log.append("left")
+            elif op == "leavepair":
+                # two clients leave while the parent is not running (SIGSTOP stands for a parent that is busy / has the signal deferred):
+                # both children end, their SIGCHLDs coalesce into ONE pending signal; when the parent runs again its handler must reap both
+                os.kill(info["pid"], signal.SIGSTOP)
+                try:
+                    for cid in it[1:3]:
+                        c = conns.pop(cid, None)
+                        if c is not None:
+                            c.close()
+                    log.append("left2")
+                    wait_until(lambda: child_states(info["pid"]).count("Z") >= 2, 5.0)
+                finally:
+                    os.kill(info["pid"], signal.SIGCONT)
+                if not wait_until(lambda: child_states(info["pid"]).count("Z") == 0, B):
+                    oracle.append({"sig": "residue:forking:zombie-children", "item": idx, "observed": child_states(info["pid"]), "expected": "no defunct child",
+                                   "what": "children of the forking server whose clients have left stay defunct in the server's process table (two ended while "
+                                           "the parent was not running: one SIGCHLD, the handler must reap every ended child)"})
             elif op == "srvclose":
                 os.kill(info["pid"], signal.SIGUSR1)
                 ok = wait_until(lambda: any(l.startswith("closed ") for l in hooks()), B)
@@ -2212,8 +2248,11 @@ def run_forking_job(job):
                     if not wait_until(lambda: nd() == nc, B):
                         oracle.append({"sig": "hook-count:forking:after-close", "item": idx, "observed": [nc, nd()], "expected": "equal",
                                        "what": "on_disconnect did not run once per served connection after close()"})
-        # departed clients: their child ran the hook once and ended
-        ndep = sum(1 for x in log if x == "left")
+        # departed clients: their child ran the hook once and ended -- and has been reaped by the parent
+        if not closed and not wait_until(lambda: child_states(info["pid"]).count("Z") == 0, B):
+            oracle.append({"sig": "residue:forking:zombie-children", "item": len(job["items"]), "observed": child_states(info["pid"]), "expected": "no defunct child",
+                           "what": "children of the forking server whose clients have left stay defunct in the server's process table"})
+        ndep = sum(1 for x in log if x == "left") + 2 * sum(1 for x in log if x == "left2")
         if not closed and not any(it[0] == "hostile" for it in job["items"]):
             nd = lambda: sum(1 for l in hooks() if l.startswith("d "))
             if not wait_until(lambda: nd() == ndep, B):
@@ -2499,6 +2538,12 @@ def witnesses():
             base = {"kind": kind, "transport": transport, "auth": False, "cls": True, "nw": 2, "batch": 10}
             out.append((dict(base), [["race", 1], ["srvclose"]]))
             out.append((dict(base), [["connect", 1, "raw", 0], ["req", 1, QROOT, None, 0], ["race", 2], ["leave", 1, "fin"]]))
+    # the one-shot server's single client is one that reset before it was accepted (getpeername fails while it is being set up): that WAS
+    # the one shot - the server is closed, a later client is not served (seed C17-r9m1: with the try/finally of OneShotServer._accept_method
+    # gone, accept()'s guard against a worker that cannot be started swallows the OSError and the loop serves a second client)
+    for transport in ("tcp", "unix"):
+        base = {"kind": "oneshot", "transport": transport, "auth": False, "cls": True, "nw": 2, "batch": 10}
+        out.append((dict(base), [["knock", 1], ["connect", 2, "raw", 0], ["req", 2, QROOT, None, 0]]))
     # no thread can be started for a client (model event ESpawnFail): nothing of it stays behind, close() afterwards ends the others
     for transport in ("tcp", "unix"):
         base = {"kind": "threaded", "transport": transport, "auth": False, "cls": True, "nw": 2, "batch": 10}
@@ -2507,11 +2552,29 @@ def witnesses():
     return out
 
 
+def child_states(pid):
+    """the process states (R, S, Z ...) of the direct children of pid, read off /proc"""
+    out = []
+    for d in os.listdir("/proc"):
+        if d.isdigit():
+            try:
+                st = open("/proc/%s/stat" % d).read()
+            except OSError:
+                continue
+            f = st[st.rindex(")") + 2:].split()
+            if len(f) > 1 and f[1] == str(pid):
+                out.append(f[0])
+    return out
+
+
 def forking_jobs(r, n):
     jobs = [{"kind": "forking", "transport": "tcp", "auth": False, "cls": True, "nw": 0, "batch": 0}]
     out = [(dict(jobs[0]), [["connect", 1, "rpyc", 0], ["call", 1, 5], ["srvclose"]]),
            (dict(jobs[0]), [["connect", 1, "rpyc", 0], ["connect", 2, "rpyc", 0], ["call", 2, 1], ["leave", 1, "close"], ["srvclose"]]),
-           (dict(jobs[0]), [["connect", 1, "rpyc", 0], ["call", 1, 3], ["leave", 1, "close"], ["connect", 2, "rpyc", 0], ["leave", 2, "close"]])]
+           (dict(jobs[0]), [["connect", 1, "rpyc", 0], ["call", 1, 3], ["leave", 1, "close"], ["connect", 2, "rpyc", 0], ["leave", 2, "close"]]),
+           # two children end while the parent is not running: one SIGCHLD for both (seed C17-r9m2: the handler reaps one child per signal)
+           (dict(jobs[0]), [["connect", 1, "rpyc", 0], ["connect", 2, "rpyc", 0], ["call", 1, 1], ["call", 2, 2], ["leavepair", 1, 2], ["connect", 3, "rpyc", 0], ["call", 3, 3], ["leave", 3, "close"]]),
+           (dict(jobs[0]), [["connect", 1, "rpyc", 0], ["connect", 2, "rpyc", 0], ["connect", 3, "rpyc", 0], ["leavepair", 2, 3], ["call", 1, 7], ["srvclose"]])]
     for _ in range(n):
         items, alive, nxt = [], [], 1
         for _ in range(r.randrange(2, 7)):
